@@ -161,6 +161,7 @@ fn gen_site(r: &mut Rng) -> Site {
 
 pub fn run(ctx: &Ctx, st: &mut Stats) {
     let nsy = ((ctx.pick(512, 24_000) as f64 * ctx.scale).ceil() as u64).max(2);
+    let mut early: Vec<Case> = vec![];
     for i in 0..nsy {
         if !ctx.mine(i) {
             continue;
@@ -196,8 +197,19 @@ pub fn run(ctx: &Ctx, st: &mut Stats) {
         };
         st.sample(|| json!({"site_year": c, "note": "every day of the year is checked under both nearest-good-day policies"}));
         check(ctx, st, &c);
+        if early.len() < 6 {
+            // remembered for the long-delay re-check at the end of the shard: mid-summer dates of this site-year
+            let mid = if site.lat.0 > 0.0 { ymd(year, 6, 21) } else { ymd(year, 12, 21) };
+            early.push(Case { site, method, start: d2s(from_ce(ce(mid) - 2)), len: 5, alt_gmt: None });
+        }
         st.count("site_years");
         st.count(if site.lat.0 > 0.0 { "site_years.north" } else { "site_years.south" });
+    }
+    // long-delay re-check: dates of the first site-years again, after everything else this shard has computed
+    // (tens of thousands of unrelated searches later) — the answers must not have changed
+    for c in &early {
+        check(ctx, st, c);
+        st.count("long_delay_rechecks(5 mid-summer dates of an early site-year)");
     }
     // boundary seeking: bisect the latitude (down to adjacent f64 values) so that a chosen date is the LAST day on
     // which Fajr still (just) exists — a good day with grazing twilight — and check the week around it: the bad
